@@ -22,6 +22,7 @@ type seed struct {
 }
 
 var seeds = []seed{
+	{"a second portable decoder adopts a run list verbatim", "L8", "roaringarray.go", "func (ra *roaringArray) hasRunCompression() bool {\n", "func readRunChunk(stream internal.ByteInput, nr int) (container, error) {\n\tbuf, err := stream.Next(nr * 4)\n\tif err != nil {\n\t\treturn nil, err\n\t}\n\treturn &runContainer16{iv: byteSliceAsInterval16Slice(buf)}, nil\n}\n\nfunc (ra *roaringArray) hasRunCompression() bool {\n", "roaring.readRunChunk"},
 	{"64-bit ClearValues empties the existence bitmap before the planes", "F10.bsi", "roaring64/bsi64.go", "\tfor i := range b.bA {\n\t\tb.bA[i].AndNot(foundSet)\n\t}\n\t// last: foundSet may be the existence bitmap itself\n\tb.eBM.AndNot(foundSet)\n", "\tb.eBM.AndNot(foundSet)\n\tfor i := range b.bA {\n\t\tb.bA[i].AndNot(foundSet)\n\t}\n", "(*roaring64.BSI).ClearValues"},
 	{"32-bit ClearValues clears the existence bitmap in a goroutine of its own", "F10.bsi", "BitSliceIndexing/bsi.go", "\tvar wg sync.WaitGroup\n\tfor i := 0; i < b.BitCount(); i++ {\n\t\twg.Add(1)\n\t\tgo func(j int) {\n\t\t\tdefer wg.Done()\n\t\t\tb.bA[j].AndNot(foundSet)\n\t\t}(i)\n\t}\n\twg.Wait()\n\t// last, and after the workers: foundSet may be the existence bitmap itself\n\tb.eBM.AndNot(foundSet)\n", "\tvar wg sync.WaitGroup\n\twg.Add(1)\n\tgo func() {\n\t\tdefer wg.Done()\n\t\tb.eBM.AndNot(foundSet)\n\t}()\n\tfor i := 0; i < b.BitCount(); i++ {\n\t\twg.Add(1)\n\t\tgo func(j int) {\n\t\t\tdefer wg.Done()\n\t\t\tb.bA[j].AndNot(foundSet)\n\t\t}(i)\n\t}\n\twg.Wait()\n", "(*BitSliceIndexing.BSI).ClearValues"},
 	{"64-bit in-place Xor loses its self-application guard", "F10", "roaring64/roaring64.go", "func (rb *Bitmap) Xor(x2 *Bitmap) {\n\tif rb == x2 {\n\t\trb.Clear()\n\t\treturn\n\t}\n", "func (rb *Bitmap) Xor(x2 *Bitmap) {\n", "(*roaring64.Bitmap).Xor"},
